@@ -23,28 +23,6 @@ WellParen(a) ==
       [] a.k = "call" -> \A i \in 1..Len(a.args) : WellParen(a.args[i])
       [] OTHER -> TRUE
 
-RECURSIVE Canon(_)
-Canon(a) ==
-    CASE a.k = "num" -> [k |-> "num", v |-> LitValue(a.txt)]
-      [] a.k = "paren" -> Canon(a.x)
-      [] a.k = "bin" -> [k |-> "bin", op |-> a.op, l |-> Canon(a.l), r |-> Canon(a.r)]
-      [] a.k = "neg" -> [k |-> "neg", x |-> Canon(a.x)]
-      [] a.k = "pct" -> LET x == Canon(a.x) IN
-                        IF x.k = "num" THEN [k |-> "num", v |-> IF x.v.t = "num" THEN RDiv(x.v, Whole(100)) ELSE Open]
-                        ELSE [k |-> "pct", x |-> x]
-      [] a.k = "call" -> [k |-> "call", f |-> a.f, at |-> FALSE, args |-> [i \in 1..Len(a.args) |-> Canon(a.args[i])]]
-      [] a.k = "ref" -> [a EXCEPT !.ac = FALSE, !.ar = FALSE]
-      [] a.k = "range" -> [a EXCEPT !.a1 = FALSE, !.b1 = FALSE, !.a2 = FALSE, !.b2 = FALSE]
-      [] OTHER -> a
-
-RECURSIVE HasOpen(_)
-HasOpen(a) ==
-    CASE a.k = "num" -> a.v.t # "num"
-      [] a.k = "bin" -> HasOpen(a.l) \/ HasOpen(a.r)
-      [] a.k \in {"neg", "pct"} -> HasOpen(a.x)
-      [] a.k = "call" -> \E i \in 1..Len(a.args) : HasOpen(a.args[i])
-      [] OTHER -> FALSE
-
 Verdict(e, x) ==
     IF ~WellParen(e.ast) THEN "generator-parens"
     ELSE IF Formula(e.ast, e.style) # e.text THEN "generator-render"
